@@ -285,6 +285,49 @@ def sg_metadata(w):
                         node_props_metadata={}, edge_props_metadata={})
 
 
+AXLIST_KEYS = ("axis_units", "axis_types", "axis_scales", "scaled_units", "axis_offset")
+
+
+def md_kwargs(w):
+    """metadata= / axis_* keyword arguments of geff.write for a networkx / rustworkx writer (the call shapes of BackendsMd.v)."""
+    kw = {}
+    if w.get("cmd") is not None:
+        kw["metadata"] = gg.make_metadata(w["cmd"])
+    for k in AXLIST_KEYS:
+        if (w.get("axlists") or {}).get(k) is not None:
+            kw[k] = list(w["axlists"][k])
+    return kw
+
+
+def has_md_shape(w) -> bool:
+    return w.get("cmd") is not None or bool(w.get("axlists"))
+
+
+def axis_entry(w, k):
+    """entry k of every axis_* list (None where the list is absent or holds None)."""
+    al = w.get("axlists") or {}
+    pick = lambda key: None if al.get(key) is None else al[key][k]
+    return {"type": pick("axis_types"), "unit": pick("axis_units"), "scale": pick("axis_scales"), "scaled_unit": pick("scaled_units"),
+            "offset": pick("axis_offset")}
+
+
+def axis_token(it, name, entry):
+    """token of an axis carrying these fields, computed from an Axis built directly (not through update_metadata_axes)."""
+    from geff_spec import Axis, GeffMetadata
+
+    md = GeffMetadata(directed=True, axes=[Axis(name=name, **entry)], node_props_metadata={}, edge_props_metadata={})
+    return abstract_meta_json(md.model_dump(mode="json"), it)["axes"][0]["tok"]
+
+
+def effective_axes(w):
+    """axis names of the written geff: the axis_names argument, else the caller's metadata axes."""
+    if w.get("axes") is not None:
+        return list(w["axes"])
+    if w.get("cmd") is not None and w["cmd"].get("axes") is not None:
+        return [a["name"] for a in w["cmd"]["axes"]]
+    return None
+
+
 def mem_geff(w):
     return {"metadata": gg.make_metadata(w["md"]), "node_ids": gg.to_np(w["nids"]), "edge_ids": gg.to_np(w["eids"]),
             "node_props": gg.props_to_np(w["nprops"]) or {}, "edge_props": gg.props_to_np(w["eprops"]) or {}}
@@ -385,19 +428,22 @@ def run_impl(c):
             return observe(c["reader"], graph, md, c["pos"])
         store = MemoryStore()
         if w["lib"] == "nx":
-            geff.write(build_nx(w), store, axis_names=w["axes"], zarr_format=c["fmt"])
+            geff.write(build_nx(w), store, axis_names=w["axes"], zarr_format=c["fmt"], **md_kwargs(w))
         elif w["lib"] == "rx":
             kw = {}
             if w["idmap"] is not None:
                 kw["node_id_dict"] = {int(a): int(b) for a, b in w["idmap"]}
-            geff.write(build_rx(w), store, axis_names=w["axes"], zarr_format=c["fmt"], **kw)
+            geff.write(build_rx(w), store, axis_names=w["axes"], zarr_format=c["fmt"], **kw, **md_kwargs(w))
         else:
             geff.write(build_sg(w), store, metadata=sg_metadata(w), axis_names=w["axes"], zarr_format=c["fmt"])
         if c["reader"] == "mem":
             return {"mem": mem_to_json(read_to_memory(store))}
         kw = {"position_attr": c["pos"]} if c["reader"] == "sg" and c["pos"] != "position" else {}
         graph, md = geff.read(store, backend=BACKEND[c["reader"]], **kw)
-        return observe(c["reader"], graph, md, c["pos"])
+        out = observe(c["reader"], graph, md, c["pos"])
+        if has_md_shape(w):
+            out["mdj"] = md.model_dump(mode="json")         # the metadata read back (oracle: directed, axes, entries)
+        return out
     except HarnessError:
         raise
     except Exception as e:
@@ -423,6 +469,22 @@ def c_axes(ax) -> str:
     return copt(ax, lambda l: clist(l, cstr))
 
 
+def c_caller_md(w, it) -> str:
+    if w.get("cmd") is None:
+        return "None"
+    return f"(Some {c_meta(abstract_meta_json(gg.make_metadata(w['cmd']).model_dump(mode='json'), it))})"
+
+
+def c_axes_tok(w, it) -> str:
+    if w.get("axes") is None:
+        return "None"
+    al = w.get("axlists") or {}
+    for k in AXLIST_KEYS:
+        if al.get(k) is not None and len(al[k]) != len(w["axes"]):
+            raise HarnessError("axis list of another length than axis_names: outside the zipped representation")
+    return "(Some " + clist(list(enumerate(w["axes"])), lambda ia: f"({cstr(ia[1])}, {cz(axis_token(it, ia[1], axis_entry(w, ia[0])))})") + ")"
+
+
 def c_dgraph(nodes, edges, it) -> str:
     ns = clist(nodes, lambda na: f"({cz(na[0])}, {c_attrs(na[1], it)})")
     es = clist(edges, lambda ea: f"({c_zz(ea[0])}, {c_attrs(ea[1], it)})")
@@ -434,12 +496,16 @@ def c_writer(w, it) -> str:
         g = build_nx(w)
         nodes = [(n, d) for n, d in g.nodes(data=True)]
         edges = [((u, v), d) for u, v, d in g.edges(data=True)]
+        if has_md_shape(w):
+            return f"(WNxMd {cbool(w['directed'])} {c_dgraph(nodes, edges, it)} {c_caller_md(w, it)} {c_axes_tok(w, it)})"
         return f"(WNx {cbool(w['directed'])} {c_dgraph(nodes, edges, it)} {c_axes(w['axes'])})"
     if w["lib"] == "rx":
         g = build_rx(w)
         nodes = list(zip(g.node_indices(), g.nodes()))
         edges = [((u, v), d) for u, v, d in g.weighted_edge_list()]
         idm = copt(w["idmap"], lambda l: clist(l, c_zz))
+        if has_md_shape(w):
+            return f"(WRxMd {cbool(w['directed'])} {c_dgraph(nodes, edges, it)} {idm} {c_caller_md(w, it)} {c_axes_tok(w, it)})"
         return f"(WRx {cbool(w['directed'])} {c_dgraph(nodes, edges, it)} {idm} {c_axes(w['axes'])})"
     if w["lib"] == "sg":
         g = build_sg(w)
@@ -727,8 +793,10 @@ def oracle(c, o):
     exp = expected_graph(w)
     if exp is None:
         return None                                     # outside the quantifier (malformed input)
-    if w["lib"] in ("nx", "rx") and w["axes"] is not None:
-        ax = w["axes"]
+    if w["lib"] in ("nx", "rx") and not md_in_quantifier(w, exp):
+        return None                                     # caller entries for absent properties, axis lists of the wrong length, invalid axis fields
+    if w["lib"] in ("nx", "rx") and effective_axes(w) is not None:
+        ax = effective_axes(w)
         if len(set(ax)) != len(ax):
             return None
         for a in ax:
@@ -737,7 +805,7 @@ def oracle(c, o):
                 return None                             # an axis must be a complete scalar numeric property
     # names the libraries / zarr cannot carry are not generated
     if w["lib"] == "nx" or w["lib"] == "rx":
-        axes = w["axes"] or []
+        axes = effective_axes(w) or []
     elif w["lib"] == "sg":
         axes = w["axes"] if w["axes"] is not None else (w["md"]["axes"] if w.get("md") and w["md"]["axes"] is not None else [])
     else:
@@ -786,10 +854,77 @@ def oracle(c, o):
         ge = {tuple(e): d for e, d in x["edges"]}
         r = compare(c, exp, x["directed"], gn, ge, "sg", axes)
     if r is None:
+        r = md_oracle(c, o, exp)
+    if r is None:
         return None
     what, tags = r
     tags = dict(tags, writer=w["lib"], reader=c["reader"])
     return Failure(c, o, f"{w['lib']} -> {c['reader']} (zarr {c['fmt']}): {what}", tags)
+
+
+VALID_AXIS_TYPES = (None, "space", "time", "channel")
+
+
+def md_in_quantifier(w, exp) -> bool:
+    """The metadata arguments of a networkx / rustworkx write are ones the property speaks about."""
+    al = w.get("axlists") or {}
+    if al and w.get("axes") is None:
+        return True                                     # the lists are ignored without axis_names
+    for k in AXLIST_KEYS:
+        if al.get(k) is not None and len(al[k]) != len(w["axes"]):
+            return False
+    if any(t not in VALID_AXIS_TYPES for t in (al.get("axis_types") or [])):
+        return False
+    if any(u is not None and ((al.get("axis_scales") or [None] * len(w["axes"]))[k] is None) for k, u in enumerate(al.get("scaled_units") or [])):
+        return False
+    cmd = w.get("cmd")
+    if cmd is not None:
+        nnames = {k for d in exp["nodes"].values() for k in d}
+        enames = {k for d in exp["edges"].values() for k in d}
+        if not set(cmd.get("nprops_md") or {}) <= nnames or not set(cmd.get("eprops_md") or {}) <= enames:
+            return False
+        if cmd.get("display_hints") is not None:
+            return False
+    return True
+
+
+def md_oracle(c, o, exp):
+    """The metadata read back after a networkx / rustworkx write with caller metadata / axis lists, from the property text:
+    directedness of the GRAPH, one axis per effective axis name with min / max of the column and the fields handed in, one entry per
+    written property keeping the caller's unit / name / description, the caller's extra."""
+    w = c["writer"]
+    mdj = o.get("mdj")
+    if mdj is None or w["lib"] not in ("nx", "rx"):
+        return None
+    if mdj["directed"] != exp["directed"]:
+        return f"metadata says directed={mdj['directed']} for a graph with directed={exp['directed']}", {"why": "md-directed"}
+    names = effective_axes(w)
+    got = mdj.get("axes")
+    if names is None:
+        if got:
+            return f"axes {got} appeared from nowhere", {"why": "md-axes"}
+    else:
+        if [a["name"] for a in (got or [])] != names:
+            return f"axes {names} came back as {[a['name'] for a in (got or [])]}", {"why": "md-axes"}
+        for k, a in enumerate(got):
+            col = [d[names[k]] for d in exp["nodes"].values() if names[k] in d]
+            if col and (a.get("min") != float(min(col)) or a.get("max") != float(max(col))):
+                return (f"axis {names[k]!r}: column min/max {float(min(col))}/{float(max(col))} stored as {a.get('min')}/{a.get('max')}", {"why": "md-axis-minmax"})
+            want = axis_entry(w, k) if w.get("axes") is not None else {f: w["cmd"]["axes"][k].get(f) for f in ("type", "unit", "scale", "scaled_unit", "offset")}
+            for f, v in want.items():
+                if a.get(f) != v:
+                    return f"axis {names[k]!r}: {f}={v!r} handed in, {a.get(f)!r} stored", {"why": "md-axis-field", "field": f}
+    for kind, table, key in (("node", exp["nodes"], "node_props_metadata"), ("edge", exp["edges"], "edge_props_metadata")):
+        have = {k for d in table.values() for k in d}
+        if set(mdj.get(key) or {}) != have:
+            return f"{kind} properties {sorted(have)} are declared as {sorted(mdj.get(key) or {})}", {"why": "md-entries"}
+        for nm, ent in ((w.get("cmd") or {}).get("nprops_md" if kind == "node" else "eprops_md") or {}).items():
+            for f in ("unit", "name", "description"):
+                if ent.get(f) is not None and mdj[key][nm].get(f) != ent[f]:
+                    return f"{kind} property {nm!r}: caller's {f}={ent[f]!r} came back as {mdj[key][nm].get(f)!r}", {"why": "md-entry-field"}
+    if (w.get("cmd") or {}).get("extra") and mdj.get("extra") != w["cmd"]["extra"]:
+        return f"extra {w['cmd']['extra']} came back as {mdj.get('extra')}", {"why": "md-extra"}
+    return None
 
 
 # --------------------------------------------------------------------------
@@ -926,6 +1061,102 @@ def rand_nx_writer(rng, max_n=6, sg_template=None):
     na, ea = attach(n, ncols), attach(len(edges), ecols)
     return {"lib": "nx", "directed": directed, "nodes": [[i, a] for i, a in zip(ids, na)],
             "edges": [[list(e), a] for e, a in zip(edges, ea)], "axes": axes}
+
+
+UNITS = {"x": "micrometer", "y": "micrometer", "z": "nanometer", "t": "second"}
+TYPES = {"x": "space", "y": "space", "z": "space", "t": "time"}
+
+
+def rand_md_writer(rng, mode=None, n=None):
+    """A networkx writer with one of the metadata call shapes: axis_names with per-axis lists, a caller GeffMetadata (axes named in
+    it, stale ranges, `directed` possibly opposite to the graph's, entries with unit / name / description, extra), both, or neither."""
+    directed = rng.random() < 0.5
+    n = rng.choice([1, 2, 3, 4]) if n is None else n
+    ids = rand_ids(rng, n)
+    edges = rand_edges(rng, ids, directed)
+    axn = rng.sample(["x", "y", "z", "t"], rng.randint(1, 3))
+    ncols = {}
+    for a in axn:
+        k = rng.choice(["float", "float", "int", "bool"]) if rng.random() < 0.9 else "bool"
+        ncols[a] = [small_leaf(rng, k) if k != "bool" else rng.random() < 0.5 for _ in range(n)]
+    for nm in rng.sample(NAMES, rng.randint(0, 2)):
+        ncols[nm] = rand_column(rng, n, kind=rng.choice(["bool", "int", "float", "str", "list1", "ragged"]))
+    ecols = {nm: rand_column(rng, len(edges), kind=rng.choice(["int", "float", "str"])) for nm in rng.sample(NAMES, rng.randint(0, 1))}
+    mode = mode or rng.choice(["lists", "lists", "md", "md", "both", "md_noaxes", "lists_bare"])
+    axes, axlists, cmd = None, None, None
+    if mode in ("lists", "both", "lists_bare"):
+        axes = list(axn)
+        if mode != "lists_bare":
+            lst = lambda f, p_absent=0.35: None if rng.random() < p_absent else [f(a) if rng.random() < 0.75 else None for a in axn]
+            axlists = {"axis_units": lst(lambda a: UNITS[a]), "axis_types": lst(lambda a: TYPES[a]),
+                       "axis_scales": lst(lambda a: rng.choice([0.5, 2.0, 1.0])), "scaled_units": lst(lambda a: UNITS[a], 0.6),
+                       "axis_offset": lst(lambda a: rng.choice([-1.5, 10.0, 0.0]))}
+            if axlists["scaled_units"] is not None:         # Axis: a scaled unit needs a scale (the invalid combination is in md_malformed)
+                axlists["scaled_units"] = [u if axlists["axis_scales"] is not None and axlists["axis_scales"][k] is not None else None
+                                           for k, u in enumerate(axlists["scaled_units"])]
+    if mode in ("md", "both", "md_noaxes"):
+        present = [k for k, col in ncols.items() if any(v is not None for v in col)]
+        epresent = [k for k, col in ecols.items() if any(v is not None for v in col)]
+        cax = None
+        if mode == "md":
+            cax = [{"name": a, "min": -100.0, "max": 100.0, "unit": UNITS[a] if rng.random() < 0.7 else None,
+                    "type": TYPES[a] if rng.random() < 0.7 else None, **({"scale": 0.5, "offset": 2.0} if rng.random() < 0.3 else {})} for a in axn]
+        elif mode == "both":
+            cax = [{"name": rng.choice(["q", axn[0]]), "min": 0.0, "max": 1.0}]          # replaced by axis_names; may name no property
+        cmd = {"directed": (not directed) if rng.random() < 0.6 else directed, "axes": cax,
+               "nprops_md": {k: {"identifier": k, "dtype": "int8", "unit": "um", **({"name": "N " + k, "description": "d"} if rng.random() < 0.5 else {})}
+                             for k in present if rng.random() < 0.5},
+               "eprops_md": {k: {"identifier": k, "dtype": "float32", "varlength": True, "unit": "s"} for k in epresent if rng.random() < 0.5},
+               "extra": {"k": 7, "who": "caller"} if rng.random() < 0.5 else None}
+    na, ea = attach(n, ncols), attach(len(edges), ecols)
+    return {"lib": "nx", "directed": directed, "nodes": [[i, a] for i, a in zip(ids, na)],
+            "edges": [[list(e), a] for e, a in zip(edges, ea)], "axes": axes, "axlists": axlists, "cmd": cmd, "mdmode": mode}
+
+
+def md_malformed(rng):
+    """metadata call shapes outside args_dom: each is refused with an exception and leaves no geff."""
+    out = []
+    base = lambda **kw: {"lib": "nx", "directed": True, "nodes": [[1, {"x": 1.0, "a": 3}], [2, {"x": 2.5, "a": 4}]], "edges": [[[1, 2], {}]],
+                         "axes": None, "axlists": None, "cmd": None, **kw}
+    ghost = {"directed": True, "axes": None, "nprops_md": {"ghost": {"identifier": "ghost", "dtype": "int8"}}, "eprops_md": {}}
+    out.append((base(cmd=ghost), {}))
+    out.append((base(cmd={"directed": False, "axes": [{"name": "nope"}], "nprops_md": {}, "eprops_md": {}}), {}))          # caller axis that is no property
+    out.append((base(axes=["x", "x"], axlists={"axis_units": ["micrometer", "micrometer"]}), {}))
+    w = base(axes=["x"], axlists={"axis_types": ["space"]})
+    w["nodes"][1][1].pop("x")
+    out.append((w, {}))                                                                                                     # axis missing on a node
+    out.append((base(axes=["x"], axlists={"axis_units": ["micrometer", "second"]}), {"outside_ok": True}))                  # list length
+    out.append((base(axes=["x"], axlists={"axis_types": ["bogus"]}), {"oracle_only": True}))
+    out.append((base(axes=["x"], axlists={"scaled_units": ["micrometer"]}), {"oracle_only": True}))                        # scaled unit without a scale
+    sx = base(cmd={"directed": True, "axes": [{"name": "s"}], "nprops_md": {}, "eprops_md": {}})
+    for nd in sx["nodes"]:
+        nd[1]["s"] = "txt"
+    out.append((sx, {"oracle_only": True}))                                                                                 # a string axis: np.min has no loop
+    # the lists are ignored without axis_names
+    out.append((base(axlists={"axis_units": ["micrometer"]}), {}))
+    # empty graph with axes from the lists / from the caller
+    out.append(({"lib": "nx", "directed": False, "nodes": [], "edges": [], "axes": ["x", "t"], "axlists": {"axis_types": ["space", "time"]}, "cmd": None}, {}))
+    out.append(({"lib": "nx", "directed": False, "nodes": [], "edges": [], "axes": None, "axlists": None,
+                 "cmd": {"directed": True, "axes": [{"name": "x", "min": -1.0, "max": 1.0}], "nprops_md": {}, "eprops_md": {}}}, {}))
+    return out
+
+
+def md_cases(rng, quick):
+    out = []
+    for i in range(70 if quick else 700):
+        w = rand_md_writer(rng)
+        fmt = rng.choice([2, 3])
+        for r in (["mem", "nx"] if i % 3 else ["mem", "nx", "rx"]):
+            out.append(case(w, r, fmt, block="md"))
+        if i % 3 == 0:
+            wr = to_rx_writer(rng, w, idmap_mode=rng.choice(["none", "ids"]))
+            wr["cmd"], wr["axlists"] = w["cmd"], w["axlists"]
+            for r in ("mem", "rx"):
+                out.append(case(wr, r, fmt, block="md"))
+    for w, kw in md_malformed(rng):
+        for r in ("mem", "nx"):
+            out.append(case(w, r, 2, block="md-malformed", **kw))
+    return out
 
 
 def to_rx_writer(rng, w, holes=True, idmap_mode=None):
@@ -1233,6 +1464,8 @@ def generate(rng: random.Random, tier: str):
             ws["axes"] = None
             out.append(case(ws, "mem", fmt))
             out.append(case(ws, "sg", fmt))
+    # ---- metadata call shapes of the dict-based backends (BackendsMd.v) ----
+    out.extend(md_cases(rng, quick))
     # ---- malformed / boundary stream ----
     out.extend(malformed(rng, quick))
     for c in out:
